@@ -428,6 +428,28 @@ def expand(task):
   return statespace.expand_paths(system(task['cfg']), task['paths'])
 
 
+def large_shard(task):
+  """One long history on a study with more than a hundred trials (anything in the serving path that lists trials in pages or
+  batches shows only here): 105 completed trials added by the user, then suggest / complete / suggest by two workers."""
+  cfg = {'max_trials': 400, 'counts': (1, 2), 'max_id': 130, 'backends': [task['backend']], 'mode': task['mode']}
+  sysm = system(cfg)
+  sysm.reset()
+  path = [('CreateStudy', 's', 'REC')] + [('CreateTrial', 's', 'succeeded', round(0.001 * i, 6)) for i in range(1, 106)]
+  path += [('SuggestTrials', 's', 'a', 2), ('CompleteTrial', 's', 106, 'final'), ('SuggestTrials', 's', 'b', 1), ('CompleteTrial', 's', 107, 'infeasible'), ('SuggestTrials', 's', 'a', 1)]
+  vios = []
+  done = []
+  for a in path:
+    for v in sysm.apply(a):
+      v = dict(v)
+      v['sig'] = v['sig'] + '|large-study'
+      v['case'] = {'large': True, 'backend': task['backend'], 'mode': task['mode']}
+      vios.append(v)
+    done.append(a)
+    if vios:
+      break
+  return {'n': len(done), 'violations': vios[:5]}
+
+
 def run(ctx):
   svc_base = {'max_trials': 3, 'counts': (1, 2), 'max_id': 5}
   if ctx.quick:
@@ -466,10 +488,19 @@ def run(ctx):
     cov['exhaustive'] = cov['exhaustive'] and c['exhaustive']
     c['cfg'] = cfg
     cov['runs'].append(c)
+  big = 0
+  for r in ctx.pmap('large_shard', [{'backend': 'ram', 'mode': 'rebuilt'}, {'backend': 'ram', 'mode': 'stateless'}] + ([] if ctx.quick else [{'backend': 'sqlmem', 'mode': 'rebuilt'}])):
+    big += r['n']
+    ctx.extend(r['violations'])
+  cov['transitions'] += big
+  cov['traces_validated_against_impl'] += big
+  cov['large_study_steps'] = big
   return cov
 
 
 def replay(case, ctx):
+  if case.get('large'):
+    return large_shard({'backend': case['backend'], 'mode': case['mode']})['violations']
   sysm = system(case['cfg'])
   sysm.reset()
   for a in case['path']:
